@@ -632,7 +632,114 @@ def rule_h(ctx, out):
         raise AnalysisError(f"only {n} dependence relations evaluated")
 
 
+def rule_i(ctx, out):
+    """Every store is scheduled: the greedy (and its instruction counter) collect "the stores" with opcode-selecting predicates; the
+    store vocabulary is {MSTORE, MSTORE8, SSTORE}, so a selection that takes MSTORE must take MSTORE8 as well — a byte store that is in
+    no dependence pair is otherwise neither scheduled nor counted, and the greedy returns error == 0 for a sequence without it.
+    Parameterised selectors (get_ops_id(instrs, 'MSTORE')) are decided per caller, for the literals that caller passes."""
+    from ..core.idioms import store_predicates
+    n = 0
+    for f, expr, acc in store_predicates(ctx, {"greedy.block_generation", "smt_encoding.count_sms_greedy"}):
+        n += 1
+        if "MSTORE" in acc and "MSTORE8" not in acc:
+            out.bad(f"store-selection-misses-MSTORE8:{f.name}", f"in {f.name} the selection `{short(expr, 70)}` takes MSTORE records but not MSTORE8: a byte store "
+                    f"drops out of the schedule / the count", where(f, expr), {"accepts": sorted(acc)})
+        else:
+            out.ok({"function": f.qual, "selection": short(expr, 60), "accepts": sorted(acc)})
+    if n < 4:
+        raise AnalysisError(f"only {n} store-selecting predicates found in the greedy modules")
+
+
+def rule_j(ctx, out):
+    """The memory schedule and the storage schedule are merged into one order of accesses.  An access can be ordered by both — the
+    front-end records `a load's result is stored in the other location` as a dependence of that other location, so a SLOAD id can sit
+    in the memory order — and loads that follow the last store of their location are handed over separately (final loads).  The merged
+    order must keep every access after whatever precedes it in either order, and a final load after every store of its location.
+    `merge` is interpreted (own interpreter, `computed` included) on every combination of small memory / storage orders with such
+    shared accesses; first occurrences in the result are what counts."""
+    import itertools
+    from ..core.interp import ModuleInterp
+    from ..core.minieval import Unsupported, Raised
+    f = ctx.func("greedy.block_generation.merge")
+    mi = ModuleInterp(ctx, max_steps=100000)
+
+    def rec(i, ins, outs):
+        return {"id": i, "disasm": i.split("_")[0], "inpt_sk": ins, "outpt_sk": outs}
+    n = 0
+    for mval, sval in itertools.product(("d", "x"), ("c", "y")):
+        # MSTORE_0 stores the result x of SLOAD_0 (or an input); SSTORE_1 stores the result y of MLOAD_0 (or an input)
+        recs = [rec("SLOAD_0", ["a"], ["x"]), rec("MLOAD_0", ["b"], ["y"]), rec("SSTORE_0", ["k", "v"], []), rec("SSTORE_1", ["k2", sval], []),
+                rec("MSTORE_0", ["m", mval], [])]
+        opid = {r["id"]: r for r in recs}
+        var = {r["outpt_sk"][0]: r for r in recs if r["outpt_sk"]}
+        m_orders = [(["MSTORE_0"], []), (["MLOAD_0", "MSTORE_0"], []), (["MSTORE_0"], ["MLOAD_0"])]
+        if mval == "x":
+            m_orders = [(["SLOAD_0"] + mo, fin) for mo, fin in m_orders] + [(mo[:1] + ["SLOAD_0"] + mo[1:], fin) for mo, fin in m_orders if mo[0] != "MSTORE_0"]
+        s_orders = [(["SSTORE_0"], []), (["SSTORE_0"], ["SLOAD_0"]), (["SLOAD_0", "SSTORE_0"], []), (["SSTORE_0", "SLOAD_0", "SSTORE_1"], []),
+                    (["SSTORE_0", "SSTORE_1"], ["SLOAD_0"])]
+        if sval == "y":
+            s_orders = [(so, fin) for so, fin in s_orders if "SSTORE_1" in so]
+            s_orders = [(so[:so.index("SSTORE_1")] + ["MLOAD_0"] + so[so.index("SSTORE_1"):], fin) for so, fin in s_orders]
+        for (mo, mfin), (so, sfin) in itertools.product(m_orders, s_orders):
+            # what the two orders, the final loads and the data flow demand: a < b  (orders only constrain pairs with a store)
+            need = set()
+            for order, fin, st in ((mo, mfin, "MSTORE"), (so, sfin, "SSTORE")):
+                for i_, a in enumerate(order):
+                    for b in order[i_ + 1:]:
+                        # (an access of the other location sits in an order only for the data flow, added below)
+                        if (a.startswith(st) or b.startswith(st)) and a[0] == st[0] and b[0] == st[0]:
+                            need.add((a, b))
+                for ld in fin:
+                    need |= {(x, ld) for x in order if x.startswith(st)}
+            present = set(mo) | set(so) | set(mfin) | set(sfin)
+            if mval == "x" and "SLOAD_0" in present:
+                need.add(("SLOAD_0", "MSTORE_0"))
+            if sval == "y" and "MLOAD_0" in present and "SSTORE_1" in present:
+                need.add(("MLOAD_0", "SSTORE_1"))
+            # skip combinations that contradict themselves (a cycle): no block produces them
+            reach = {a: {b for (a2, b) in need if a2 == a} for a in present}
+            changed = True
+            while changed:
+                changed = False
+                for a in reach:
+                    more = set().union(*(reach.get(b, set()) for b in reach[a])) - reach[a]
+                    if more:
+                        reach[a] |= more
+                        changed = True
+            if any(a in reach[a] for a in reach) or set(mfin) & set(mo) or set(sfin) & set(so):
+                continue
+            try:
+                res = mi.call(f, list(mo), list(so), list(mfin), list(sfin), opid, var)
+            except Raised as e:
+                out.bad("merge:raises", f"merge raises {e.what} on the memory order {mo} (final loads {mfin}) and the storage order {so} (final loads {sfin})", where(f))
+                continue
+            except Unsupported as e:
+                raise AnalysisError(f"merge: cannot evaluate abstractly: {e}")
+            n += 1
+            first = []
+            for x in res:
+                if x not in first:
+                    first.append(x)
+            broken = sorted((a, b) for (a, b) in need if a in first and b in first and first.index(a) > first.index(b))
+            lost = sorted((set(mo) | set(so)) - set(first))
+            if not broken and not lost:
+                out.ok()
+            elif lost:
+                out.bad("merge:access-lost", f"merge({mo}, {so}, final loads {mfin} / {sfin}) = {res}: {lost} are in none of the positions", where(f))
+            else:
+                a, b = broken[0]
+                kind = "final-load" if b in mfin + sfin else "shared-access" if (a in mo and a in so) or (b in mo and b in so) or a in sfin + mfin else "order"
+                out.bad(f"merge:order-not-kept:{kind}", f"merge({mo}, {so}, final loads {mfin} / {sfin}) = {res}: {a} must come before {b} "
+                        f"({'it precedes it in one of the two orders' if kind != 'final-load' else 'a final load follows every store of its location'}) but is placed after it",
+                        where(f), {"memory_order": mo, "storage_order": so, "final_loads": [mfin, sfin], "merged": res, "violated": [list(x) for x in broken]})
+    out.samples.append({"order_pairs_evaluated": n})
+    if n < 30:
+        raise AnalysisError(f"only {n} pairs of orders evaluated")
+
+
 RULES = [
+    ("C04.j", "merging the memory and storage schedules keeps both orders (shared accesses, final loads)", 30, rule_j),
+    ("C04.i", "store selections of the greedy cover byte stores", 4, rule_i),
     ("C04.h", "the memory/storage schedule respects every dependence", 300, rule_h),
     ("C04.g", "loads ordered after the last store are released only when no store is pending", 2, rule_g),
     ("C04.f", "extremes over dependences are taken over all of them", 2, rule_f),
